@@ -415,10 +415,21 @@ pub fn run_case(case: &J, enc2: bool) -> CaseOut {
     let body: Vec<J> = case["body"].as_array().cloned().unwrap_or_default();
     let plan: Vec<J> = case["plan"].as_array().cloned().unwrap_or_default();
     let input = build_module(&body, arity, nlocals);
-    let mut ev = json!({"t":"case","id":id,"arity":arity,"nlocals":nlocals,"orig":body,"src":case["src"]});
+    let mut ev = json!({"t":"case","id":id,"arity":arity,"nlocals":nlocals,"orig":body});
+    if let Some(s) = case["src"].as_str() {
+        ev["src"] = json!(s);
+    }
     if let Err(e) = validate(&input) {
         ev["skip"] = json!(format!("invalid input: {}", e));
         return CaseOut { ev, bytes: None };
+    }
+    // the original body in the decoder's normal form (also cross-checks encoder/decoder of the harness)
+    match decode_body(&input) {
+        Ok((orig, _)) => ev["orig"] = json!(orig),
+        Err(e) => {
+            ev["skip"] = json!(format!("harness decode: {}", e));
+            return CaseOut { ev, bytes: None };
+        }
     }
     let input = leak(input);
     let mut module = match guarded(|| Module::parse(input, false)) {
